@@ -25,7 +25,7 @@ structure CbDrv where
   pendingAdd : Option (String × Option Nat) := none
 
 /-- the variant is read off the source: `Gen.callbackPutDispatchBlocking` -/
-def cbDrvInit : CbDrv := { cfg := ⟨Gen.callbackWorkerQueue, Gen.callbackPutDispatchBlocking⟩ }
+def cbDrvInit : CbDrv := { cfg := ⟨Gen.callbackWorkerQueue, Gen.callbackPutDispatchBlocking, Gen.callbackAddCloseSendBlocking⟩ }
 
 def showJob : Job → String
   | .beacon b => toString b.round
